@@ -158,15 +158,28 @@ def run_case(case):
         extra = extra[: min(len(extra) - len(extra) % 8, 8 * 60)]
         data = extra + data
         recs = []
+        global _VARIANT
+        from .. import seams as _s
+        _VARIANT = 'opt' if case['chunk'] == 2 else _s.PROC_ROTATION[case['seed'] % len(_s.PROC_ROTATION)]
         for fname, tbl, route in ((case['file'], table, 'direct'), (other, tb, 'plugin'),
-                                  (case['file'], table, 'plugin' if case['chunk'] % 2 else 'direct')):
+                                  (case['file'], table, ['plugin', 'direct', 'process'][case['chunk'] % 3])):
             recs.append(_decode(parse_ilog_data, data, os.path.join(drawer.io_dir(), fname), tbl, fname, route))
         return recs
     return [_decode(parse_ilog_data, data, path, table, label, 'direct')]
 
 
+_VARIANT = 'plain'
+
+
 def _decode(parse_ilog_data, data, path, table, label, route):
-    if route == 'plugin':
+    out = None
+    if route == 'process':
+        # as the user-data section of an I/O drawer error log, shown by `peltool -f` run as a real process in one of
+        # the ordinary environments
+        from .. import seams
+        lines = drawer.lines_via_process(73, {'mex_pte.h': 1, 'nimitz_pte.h': 2}[label], data,
+                                         _VARIANT)
+    elif route == 'plugin':
         import json
         import udparsers.m2c00.m2c00 as plug
         out = json.loads(plug.parseUDToJson(73, {'mex_pte.h': 1, 'nimitz_pte.h': 2}[label], memoryview(bytes(data))))
